@@ -78,7 +78,7 @@ func TestC07(t *testing.T) {
 			d.Levels = append(d.Levels, gen.QeLevel{Date: gen.LevelDates[s.Intn(len(gen.LevelDates))], Isvsvn: uint32(isv), Status: rapid.SampledFrom([]string{"UpToDate", "UpToDate", "UpToDate", "SWHardeningNeeded", "ConfigurationNeeded", "ConfigurationAndSWHardeningNeeded", "OutOfDate", "OutOfDateConfigurationNeeded", "Revoked"}).Draw(t, "status")})
 		}
 		pert := rapid.SampledFrom([]string{"none", "none", "report-misc-bit", "report-attr-bit", "id-misc-bit", "id-attr-bit", "mask-misc-bit", "mask-attr-bit", "mrsigner-bit", "report-mrsigner-bit", "prodid", "report-prodid",
-			"misc-3", "misc-5", "miscmask-3", "miscmask-5", "attr-15", "attr-17", "attrmask-15", "attrmask-17", "mrsigner-31", "mrsigner-33", "upper-hex", "report-isvsvn", "mrsigner-prodid-boundary-shift", "mrsigner-prodid-boundary-shift"}).Draw(t, "perturb")
+			"misc-3", "misc-5", "miscmask-3", "miscmask-5", "attr-15", "attr-17", "attrmask-15", "attrmask-17", "mrsigner-31", "mrsigner-33", "upper-hex", "report-isvsvn", "mrsigner-prodid-boundary-shift", "mrsigner-prodid-boundary-shift", "number-out-of-range", "number-out-of-range", "report-attr-words-cancel", "report-attr-words-cancel"}).Draw(t, "perturb")
 		switch pert {
 		case "report-misc-bit":
 			q.QeMiscSelect ^= 1 << uint(rapid.IntRange(0, 31).Draw(t, "bit"))
@@ -144,6 +144,62 @@ func TestC07(t *testing.T) {
 				v %= 65536 // (then the two renderings differ anyway)
 			}
 			d.IsvProdID = uint16(v)
+		case "number-out-of-range":
+			// a number the field cannot hold (or not a number at all) in the SIGNED identity: it must not quietly read as 0
+			// or as its low bits
+			bad := rapid.SampledFrom([]string{"65536", "4294967296", "-1", "1.5", "\"7\"", "1e20", "18446744073709551616", "true", "null", "[]"}).Draw(t, "badNumber")
+			if rapid.Bool().Draw(t, "inProdID") || len(d.Levels) == 0 {
+				if bad == "65536" || bad == "4294967296" || bad == "18446744073709551616" {
+					q.QeIsvProdID = 0 // the low 16 bits of the out-of-range number
+				}
+				d.RawIsvProdID = bad
+				if bad == "null" {
+					d.RawIsvProdID = "65537"
+				}
+			} else {
+				// put in front a level that no report reaches when read properly but every report reaches when read as 0
+				lv := gen.QeLevel{Status: "UpToDate", RawSvn: bad}
+				if bad == "65536" || bad == "null" || bad == "true" || bad == "[]" || bad == "\"7\"" || bad == "1.5" || bad == "-1" {
+					lv.RawSvn = "4294967296"
+				}
+				d.Levels = append([]gen.QeLevel{lv}, d.Levels...)
+				for i := 1; i < len(d.Levels); i++ {
+					if d.Levels[i].Status == "UpToDate" {
+						d.Levels[i].Status = "OutOfDate"
+					}
+				}
+			}
+		case "report-attr-words-cancel":
+			// the report's ATTRIBUTES differ from the identity's in two 1/2/4/8-byte words whose differences cancel under
+			// addition (x and -x) or are equal (x and x): a comparison that folds the words would not see it
+			for i := range d.AttributesMask {
+				d.AttributesMask[i] = 0xff
+			}
+			d.Attributes = append([]byte{}, q.QeAttributes[:]...)
+			width := []int{1, 2, 4, 8}[s.Intn(4)]
+			n := 16 / width
+			i := s.Intn(n)
+			j := (i + 1 + s.Intn(n-1)) % n
+			x := s.Bytes(width)
+			x[s.Intn(width)] |= 0x02
+			y := append([]byte{}, x...)
+			if s.Intn(2) == 0 {
+				be := s.Intn(2) == 0
+				carry := 1
+				for k := 0; k < width; k++ {
+					idx := k
+					if be {
+						idx = width - 1 - k
+					}
+					v := int(^x[idx]) + carry
+					y[idx] = byte(v)
+					carry = v >> 8
+				}
+			}
+			for k := 0; k < width; k++ {
+				q.QeAttributes[i*width+k] ^= x[k]
+				q.QeAttributes[j*width+k] ^= y[k]
+			}
 		case "upper-hex":
 			d.UpperHex = true
 		case "report-isvsvn":
